@@ -1,4 +1,6 @@
 import RichModel.Model.Text
+import RichModel.Model.TextStr
+import RichModel.Model.TextFrag
 import RichModel.Gen.CellWidths
 import RichModel.Drv.Proto
 /-
@@ -143,6 +145,43 @@ def decNats? (s : String) : Option (List Nat) :=
 def decAlign? : String → Option AlignMethod
   | "l" => some .left | "c" => some .center | "r" => some .right | _ => none
 
+/-- `n:str,str,…` (explicit count so that `[]` and `[""]` differ) -/
+def decStrs? (s : String) : Option (List (List Char)) :=
+  match s.splitOn ":" with
+  | [n, body] => if n == "0" then some [] else (body.splitOn ",").mapM decStr?
+  | _ => none
+
+def encStrs (l : List (List Char)) : String := toString l.length ++ ":" ++ ",".intercalate (l.map encStr)
+
+def noCtlStr (s : List Char) : Bool := s.all (fun c => !isStripCode c)
+
+/-- an operand text given by its fragments (built in Python by `Text(f0)` then `append(f)`): control-free, and no
+empty fragment after the first (`append("")` pushes nothing) -/
+def decOperand? (s : String) : Option (Text.FText Nat) := do
+  let frs ← decStrs? s
+  match frs with
+  | [] => none
+  | _ :: rest =>
+    if frs.all noCtlStr && rest.all (fun f => !f.isEmpty) then some (Text.FText.ofFrags Variant.repaired frs 0) else none
+
+def decFOp? (s : String) : Option (Text.FText.FOp Nat) :=
+  match s.toList with
+  | ['G'] => some .getPlain
+  | ['Y'] => some .copy
+  | 'S' :: rest => (decStr? (String.ofList rest)).map .setPlain
+  | 'C' :: rest => (decInt? (String.ofList rest)).map .rightCrop
+  | 'A' :: rest =>
+    match (String.ofList rest).splitOn "~" with
+    | [c, st] => do pure (.appendStr (← decStr? c) (← decOptStyle? st))
+    | _ => none
+  | 'X' :: rest => (decOperand? (String.ofList rest)).map .appendText
+  | 'T' :: rest => (decOperand? (String.ofList rest)).map .appendT
+  | 'K' :: rest => (decTokens? (String.ofList rest)).map .appendTokens
+  | 'J' :: rest =>      -- `J` then the operands separated by `!` (`J` alone: no operand)
+    if rest.isEmpty then some (.join [])
+    else (((String.ofList rest).splitOn "!").mapM decOperand?).map .join
+  | _ => none
+
 def orUnmodelled (o : Option String) : String := o.getD "unmodelled"
 
 /-- every handler: first argument the variant flags, second the text operated on -/
@@ -262,7 +301,33 @@ def handlers : List (String × (List String → String)) := [
     | _ => none),
   ("text_render", h1 fun _ t a => match a with
     | [e] => do pure (encRender (t.render (← decStr? e)))
-    | _ => none)
+    | _ => none),
+  -- string-level functions the round-4 theorems are stated with (no text, no variant)
+  ("text_str_split", fun a => match a with
+    | [sep, incl, blank, s] => orUnmodelled do
+      let sep ← decStr? sep
+      let s ← decStr? s
+      if sep.isEmpty then none
+      else
+        let ps := Text.strSplit sep (decBool incl) (decBool blank) s s
+        -- the same function applied to the positions: which character of the string lands where
+        let ix := Text.strSplit sep (decBool incl) (decBool blank) s (List.range s.length)
+        pure (toString ps.length ++ "#" ++ "|".intercalate (ps.map encStr) ++ "@" ++
+              "|".intercalate (ix.map (fun l => " ".intercalate (l.map toString))))
+    | _ => "bad-args"),
+  ("text_rstrip_end_amount", fun a => match a with
+    | [s, size] => orUnmodelled do pure (toString (Text.rstripEndAmount cw (← decStr? s) (← decInt? size)))
+    | _ => "bad-args"),
+  -- the `_text` fragment list after every operation of a history on `Text(init)` (repaired code only)
+  ("text_frag_run", fun a => match a with
+    | [init, ops] => orUnmodelled do
+      let init ← decStr? init
+      let ops ← if ops.isEmpty then some [] else (ops.splitOn "|").mapM decFOp?
+      pure (";".intercalate ((Text.FText.trace (Text.FText.new Variant.repaired init 0) ops).map encStrs))
+    | _ => "bad-args"),
+  ("text_even_indents", fun a => match a with
+    | [s] => orUnmodelled do pure (" ".intercalate ((Text.evenIndents (← decStr? s)).map toString))
+    | _ => "bad-args")
 ]
 
 end RichModel.Drv.C05
